@@ -259,12 +259,17 @@ def battery(ctx, name, impl, thr, per_module):
     """cases of C01, C02, C07, C08, C09 aimed at the crossovers of thr, run on the variant and compared with the models."""
     import importlib, checker
     bad_all = []; n = 0
-    for modname in ('c01', 'c02', 'c07', 'c08', 'c09'):
+    for modname in ('c01', 'c02', 'c07', 'c08', 'c09', 'c16'):
         mod = importlib.import_module(modname)
         v = VCtx(ctx, name, thr)
         cs = list(mod.cases(v, 'quick'))
         r = v.rng('sample')
-        if len(cs) > per_module:
+        if modname == 'c16':
+            # factorial family: every n around the factorial thresholds of this table, not a sample
+            cs = [c for c in cs if c[0].split(' ', 1)[0] in ('mpz_fac_ui', 'mpz_2fac_ui', 'mpz_mfac_uiui', 'mpz_primorial_ui', 'mpz_bin_uiui', 'mpz_bin_ui')]
+            small = [c for c in cs if len(c[0]) < 40]
+            cs = small if len(small) <= 4 * per_module else r.sample(small, 4 * per_module)
+        elif len(cs) > per_module:
             cs = r.sample(cs, per_module)
         c2 = checker.Ctx('C14', 'quick', ctx.seed)
         c2.impl = impl; c2.canon = getattr(mod, 'canon_impl', None); c2.matcher = getattr(mod, 'matcher', None)
